@@ -44,7 +44,8 @@ static void ct_call(const Args &a) {
     OutBuf out(m.size() + outlen + 64);
     long long ret = 0; size_t olen = 0;
     unsigned long e0 = VALGRIND_COUNT_ERRORS;
-    g_rounds.clear(); g_rec = true; g_taint_tape = true;
+    extern bool g_taint_src;
+    g_rounds.clear(); g_rec = true; g_taint_tape = true; g_taint_src = true;     // system entropy is secret too
 #define AEAD(P, ENC, DEC) \
     if (fn == #P ".enc") { size_t cl = 0; ENC(out.p, &cl, ms.p, ms.n, adb.p, adb.n, nb.p, ks.p); olen = ms.n + 16; } \
     else if (fn == #P ".dec") { /* x = ciphertext||tag (public), plaintext comes out tainted */ \
@@ -83,12 +84,11 @@ static void ct_call(const Args &a) {
     else if (fn == "pbkdf2_hmac") { ascon_pbkdf2_hmac(out.p, outlen, ks.p, ks.n, nb.p, nb.n, count); olen = outlen; }
     else if (fn == "prng") {       // k = the 32 seed bytes drawn from the system source (secret), m = fed data
         std::vector<std::pair<int, bytes_t> > src; src.push_back(std::make_pair(1, k)); src.push_back(std::make_pair(1, k)); tape_set_src(src);
-        extern bool g_taint_src; g_taint_src = true;
         ascon_random_state_t st; ascon_random_init(&st); ascon_random_feed(&st, ms.p, ms.n); ascon_random_fetch(&st, out.p, outlen);
-        ascon_random_reseed(&st); ascon_random_fetch(&st, out.p, outlen); ascon_random_free(&st); olen = outlen; g_taint_src = false;
+        ascon_random_reseed(&st); ascon_random_fetch(&st, out.p, outlen); ascon_random_free(&st); olen = outlen;
     }
     else fatal("ct.call fn %s", fn.c_str());
-    g_rec = false; g_taint_tape = false;
+    g_rec = false; g_taint_tape = false; g_taint_src = false;
     defined(&ret, sizeof ret); defined(out.mem, out.n + 2 * OutBuf::GUARD + out.align);
     unsigned long e1 = VALGRIND_COUNT_ERRORS;
     std::vector<long long> rounds(g_rounds.begin(), g_rounds.end());
